@@ -505,6 +505,11 @@ pub enum BuiltinProcedureBody<R: RealNumberInternalTrait> {
     Pure(fn(ArgVec<R>) -> Result<Value<R>>),
     #[allow(clippy::type_complexity)]
     Impure(Rc<dyn Fn(ArgVec<R>, Rc<Environment<R>>) -> Result<Value<R>>>),
+    /// A builtin that ends by calling another procedure (e.g. `apply`): it returns that
+    /// procedure and its arguments, and the evaluator's trampoline makes the call, so that
+    /// the call is a proper tail call.
+    #[allow(clippy::type_complexity)]
+    TailCall(fn(ArgVec<R>) -> Result<(Procedure<R>, ArgVec<R>)>),
 }
 
 impl<R: RealNumberInternalTrait> PartialEq for BuiltinProcedureBody<R> {
@@ -516,6 +521,7 @@ impl<R: RealNumberInternalTrait> PartialEq for BuiltinProcedureBody<R> {
                 #[allow(clippy::vtable_address_comparisons)]
                 Rc::ptr_eq(fpa, fpb)
             }
+            (BuiltinProcedureBody::TailCall(fpa), BuiltinProcedureBody::TailCall(fpb)) => fpa == fpb,
             _ => false,
         }
     }
@@ -526,6 +532,10 @@ impl<R: RealNumberInternalTrait> BuiltinProcedureBody<R> {
         match &self {
             Self::Pure(pointer) => pointer(args),
             Self::Impure(pointer) => pointer(args, env.clone()),
+            Self::TailCall(pointer) => {
+                let (procedure, args) = pointer(args)?;
+                crate::interpreter::Interpreter::apply_procedure(&procedure, args, env)
+            }
         }
     }
 }
@@ -593,6 +603,17 @@ impl<R: RealNumberInternalTrait> Procedure<R> {
             name,
             parameters,
             body: BuiltinProcedureBody::Impure(Rc::new(pointer)),
+        })
+    }
+    pub fn new_builtin_tail_call(
+        name: String,
+        parameters: ParameterFormals,
+        function: fn(ArgVec<R>) -> Result<(Procedure<R>, ArgVec<R>)>,
+    ) -> Self {
+        Self::Builtin(BuiltinProcedure {
+            name,
+            parameters,
+            body: BuiltinProcedureBody::TailCall(function),
         })
     }
     pub fn get_parameters(&self) -> &ParameterFormals {
